@@ -37,10 +37,32 @@ void harness(void) {
   __CPROVER_assert(0, "canary"); }''', replay=('c10_area', lambda cex, o: ['search']),
                               note='expression block extracted from find_enclosing_ring; all int32 coordinates'))
 
+# ---- segment equality (duplicate-segment cancellation rests on it): two segments are equal exactly when their end point LOCATIONS are ------------------
+NR = 'include/osmium/osm/node_ref.hpp'
+SEG_PRELUDE = '''
+struct Loc { int32_t m_x; int32_t m_y; };
+struct NodeRef { int64_t m_ref; struct Loc m_location; };
+struct NodeRefSegment { struct NodeRef m_first; struct NodeRef m_second; };
+typedef struct NodeRef NodeRef; typedef struct NodeRefSegment NodeRefSegment;
+#define LOC_EQ(a, b) ((a).m_x == (b).m_x && (a).m_y == (b).m_y)
+'''
+U_nreq = Unit(NR, 'operator==', cname='NodeRef_eq', sig=r'const NodeRef& lhs, const NodeRef& rhs', params=['const NodeRef* lhs', 'const NodeRef* rhs'], ret='bool',
+              pre=[(r'lhs\.ref\(\) == rhs\.ref\(\)', 'lhs->m_ref == rhs->m_ref')], optional=True)
+U_segeq = Unit(NRS, 'operator==', cname='NodeRefSegment_eq', sig=r'const NodeRefSegment& lhs, const NodeRefSegment& rhs', params=['const NodeRefSegment* lhs', 'const NodeRefSegment* rhs'], ret='bool',
+               pre=[(r'(\w+)\.(first|second)\(\)\.location\(\) == (\w+)\.(first|second)\(\)\.location\(\)', r'LOC_EQ(\1->m_\2.m_location, \3->m_\4.m_location)', '?'),
+                    (r'(\w+)\.(first|second)\(\) == (\w+)\.(first|second)\(\)', r'NodeRef_eq(&\1->m_\2, &\3->m_\4)', '?')])
+PIPELINES.append(Pipeline('L_segment_equality_is_by_location', units=[U_nreq, U_segeq], prelude=SEG_PRELUDE, harness='''
+void harness(void) {
+  NodeRefSegment a, b;
+  const _Bool eq = NodeRefSegment_eq(&a, &b);
+  __CPROVER_assert(eq == (LOC_EQ(a.m_first.m_location, b.m_first.m_location) && LOC_EQ(a.m_second.m_location, b.m_second.m_location)),
+                   "L two segments are equal exactly when both end points are at the same locations - whatever the node ids (coinciding segments of different nodes are duplicates and must cancel)");
+  __CPROVER_assert(0, "canary"); }''', replay=('c10_area', lambda cex, o: ['search']), note='all node ids and coordinates; loop-free, complete'))
+
 TRUSTED = []
 ASSUMPTIONS = []
-NOT_DECIDED = ['validity and coverage of assembled areas as a whole', 'segment intersection (calculate_intersection), segment ordering, ring building, inner/outer assignment beyond the x-range rule', 'independence of member order and way direction']
-LEVEL_TEXT = ('Proof of one decision kernel only: the x-range rule of the vertical ray cast that decides inner/outer nesting (find_enclosing_ring) counts a boundary vertex lying on the ray exactly once, '
+NOT_DECIDED = ['validity and coverage of assembled areas as a whole', 'segment intersection (calculate_intersection), segment ordering (operator<), ring building, inner/outer assignment beyond the x-range rule', 'independence of member order and way direction']
+LEVEL_TEXT = ('Proof of two decision kernels only: segment equality, on which the cancellation of duplicate segments rests, is equality of the end point locations whatever the node ids; the x-range rule of the vertical ray cast that decides inner/outer nesting (find_enclosing_ring) counts a boundary vertex lying on the ray exactly once, '
               'counts the interior of the x-range of a segment, ignores segments beside the ray and vertical segments, and leaves a segment that ends in the query location itself to the same-start rule (rings touching there are not counted twice) - for all int32 coordinates. The property as a whole (valid multipolygons, exact coverage) '
               'is not decided by this technique.')
 LEVEL_NOTE = ('Trusted: CBMC, extraction rules (the condition is extracted as an expression block). Everything else about area assembly is outside what function contracts could reach in this round.')
